@@ -112,7 +112,7 @@ func InlineNewHelpers(dir, baselineFile string, env []string) (map[string][]byte
 	var renamePrev map[string][]byte
 	var renameMsgs []string
 	renameFailed := false
-	_ = renameFailed
+	renamePasses := 0
 	for round := 0; round < 40; round++ {
 		cfg := &packages.Config{Mode: mode, Dir: dir, Env: env, Tests: false, Overlay: overlay}
 		// after the first full load only the packages that contain new helpers (inlining is package-local) are reloaded
@@ -140,8 +140,28 @@ func InlineNewHelpers(dir, baselineFile string, env []string) (map[string][]byte
 				}
 			}
 		}
-		// round 0: restore baseline names of renamed fields and functions
-		if round == 0 && len(bad) == 0 && !renameFailed {
+		// rename phase (up to three passes: a renamed type first, then the fields whose type strings mention it, …):
+		// restore baseline names of renamed types, fields and functions; each pass is verified by the next load
+		if renamePrev != nil {
+			if len(bad) > 0 {
+				for f, prev := range renamePrev {
+					if prev == nil {
+						delete(overlay, f)
+					} else {
+						overlay[f] = prev
+					}
+				}
+				log = append(log, "renames detected but restoring the baseline names did not type-check: left as they are")
+				renamePrev = nil
+				renameFailed = true
+				continue
+			}
+			log = append(log, renameMsgs...)
+			renameMsgs = nil
+			renamePrev = nil
+		}
+		if renamePasses < 3 && len(bad) == 0 && !renameFailed && len(lastEdits) == 0 && len(focus) == 0 {
+			renamePasses++
 			if rs := findRenames(pkgs, base); len(rs) > 0 {
 				ch := applyRenames(pkgs, rs, overlay)
 				renamePrev = map[string][]byte{}
@@ -158,23 +178,7 @@ func InlineNewHelpers(dir, baselineFile string, env []string) (map[string][]byte
 				}
 				continue
 			}
-		}
-		if round == 1 && renamePrev != nil {
-			if len(bad) > 0 {
-				for f, prev := range renamePrev {
-					if prev == nil {
-						delete(overlay, f)
-					} else {
-						overlay[f] = prev
-					}
-				}
-				log = append(log, "renames detected but restoring the baseline names did not type-check: left as they are")
-				renamePrev = nil
-				renameFailed = true
-				continue
-			}
-			log = append(log, renameMsgs...)
-			renamePrev = nil
+			renamePasses = 3
 		}
 		reverted := false
 		for _, e := range lastEdits {
@@ -433,7 +437,16 @@ func inlineOne(pk *packages.Package, file *ast.File, parents map[ast.Node]ast.No
 	ast.Inspect(callee.Body, func(n ast.Node) bool {
 		switch x := n.(type) {
 		case *ast.DeferStmt:
-			reason = "helper uses defer"
+			// a top-level `defer x.y.Unlock()` (no arguments) is run before each later return instead
+			top := false
+			for _, st := range callee.Body.List {
+				if st == ast.Stmt(x) {
+					top = true
+				}
+			}
+			if !top || len(x.Call.Args) != 0 || !pureExpr(x.Call.Fun) {
+				reason = "helper uses defer (not a simple top-level unlock-style defer)"
+			}
 		case *ast.CallExpr:
 			if id, ok := x.Fun.(*ast.Ident); ok && id.Name == "recover" {
 				reason = "helper calls recover"
@@ -795,6 +808,22 @@ func rewriteReturns(fset *token.FileSet, body *ast.BlockStmt, res, named []strin
 	var rewriteStmt func(s ast.Stmt) ast.Stmt
 	fail := ""
 	mkBreak := func() ast.Stmt { return &ast.BranchStmt{Tok: token.BREAK, Label: ast.NewIdent(label)} }
+	var defers []*ast.DeferStmt
+	for _, st := range body.List {
+		if d, ok := st.(*ast.DeferStmt); ok {
+			defers = append(defers, d)
+		}
+	}
+	// the deferred calls registered before position p, most recent first
+	deferredBefore := func(p token.Pos) []ast.Stmt {
+		var out []ast.Stmt
+		for i := len(defers) - 1; i >= 0; i-- {
+			if defers[i].Pos() < p {
+				out = append(out, &ast.ExprStmt{X: defers[i].Call})
+			}
+		}
+		return out
+	}
 	rewriteStmt = func(s ast.Stmt) ast.Stmt {
 		switch x := s.(type) {
 		case *ast.ReturnStmt:
@@ -819,8 +848,11 @@ func rewriteReturns(fset *token.FileSet, body *ast.BlockStmt, res, named []strin
 				}
 				stmts = append(stmts, &ast.AssignStmt{Lhs: lhs, Tok: token.ASSIGN, Rhs: x.Results})
 			}
+			stmts = append(stmts, deferredBefore(x.Pos())...)
 			stmts = append(stmts, mkBreak())
 			return &ast.BlockStmt{List: stmts}
+		case *ast.DeferStmt:
+			return &ast.EmptyStmt{}
 		case *ast.BlockStmt:
 			return &ast.BlockStmt{List: rewrite(x.List)}
 		case *ast.IfStmt:
@@ -884,6 +916,8 @@ func rewriteReturns(fset *token.FileSet, body *ast.BlockStmt, res, named []strin
 	if fail != "" {
 		return "", fail
 	}
+	// control that reaches the end of the body runs the deferred calls too
+	nb.List = append(nb.List, deferredBefore(body.End())...)
 	var buf bytes.Buffer
 	for _, s := range nb.List {
 		if err := printer.Fprint(&buf, fset, s); err != nil {
